@@ -198,6 +198,19 @@ def calibrate (g c : Rat) (d : V) : V :=
   if c = 0 ∧ g = 1 then d
   else d.bind (fun q => if g = 0 then none else some ((q - c) / g))
 
+/-- specification of `calibrate`: the concentration of a response `r` under the line `g·x + c` is the one value
+`(r − c) / g` — the pure formula, no shortcut, whatever number type the array holds the response in (the harness
+hands over every element as the exact rational its dtype denotes: raw counts of any integer width, binary32,
+binary64).  NaN stays NaN. -/
+def specCalibrate (g c : Rat) (d : V) : V := d.map (fun r => (r - c) / g)
+
+/-- a response lies on the line at concentration `x` -/
+def onLine (g c : Rat) (r x : V) : Bool :=
+  match r, x with
+  | some r, some x => decide (g * x + c = r)
+  | none, none => true
+  | _, _ => false
+
 /-! ## sessions: several operations on one object
 
 `calibrate` reads nothing but the `gradient` and `intercept` attributes at the time of the call.  They are
